@@ -14,7 +14,7 @@ TOPO_CLAUSES = {"RegionOrder", "SegmentCount", "RegionSizes", "Kinds", "ConnWell
                 "YGroupsOrder", "FileDims", "IntsOrdered", "LoaderAccepts", "IntsAsDocumented", "AdjacencyFromInts", "YCoord",
                 "DyIsTwoPiOverCore", "Theta", "ThetaExact"}
 CLAUSE_PROP = {c: "C08" for c in TOPO_CLAUSES}
-CLAUSE_PROP.update({"YGroupsStart": "C05"})
+CLAUSE_PROP.update({"YGroupsStart": "C05", "DxAtFaces": "C06"})      # DxAtFaces is evaluated on the C06 observation (ShiftTorsion_xlow needs dx_xlow)
 CLAUSE_PREFIX = {"InverseOK": "C02", "Jacobian": "C02", "ClosedForm": "C02", "OrthogonalZero": "C02", "G23": "C02", "Displacement": "C02", "BetaIs": "C02", "Dphidy": "C06",
                  "BrIs": "C03", "BzIs": "C03", "BpMagnitude": "C03", "BtotIs": "C03", "BtIs": "C03", "Pressure": "C03", "BpSignIs": "C03",
                  "OneBpSign": "C03", "Scalar_": "C03",
@@ -26,6 +26,8 @@ CLAUSE_PREFIX = {"InverseOK": "C02", "Jacobian": "C02", "ClosedForm": "C02", "Or
 def clause_prop(c):
     if c in CLAUSE_PROP:
         return CLAUSE_PROP[c]
+    if c.startswith("Present_"):      # a variable the check of that property needs is not in the file
+        return c[len("Present_"):]
     for k, v in CLAUSE_PREFIX.items():
         if c.startswith(k):
             return v
